@@ -5,6 +5,10 @@
    PoolSessions.tla, all invariants are evaluated at every step, and the server-side state logged when a connection
    goes back to the pool (subscriptions, tracking) must equal the specification's wire state.
 
+   A blocking caller (mux.blocking on the same pool) whose BLPOP is abandoned through its context must not hand the
+   connection back with that command in flight: its Send event says "abandon", the Store that follows must be a drop,
+   and a kept connection must not have a blocked command on the server (field blck of Store).
+
    What the implementation cannot report is a silent step: step 1 of mux.Store (hook swap), and steps 2 and 3 in
    exactly those branches in which the specification sends nothing.  If the specification says UNSUBSCRIBE/DISCARD or
    CLIENT TRACKING OFF must be sent and the log has no such command, the Store event cannot be explained.
@@ -53,7 +57,9 @@ TStore == /\ Is("Store") /\ Adv /\ Keep /\ UNCHANGED <<warm, crashed>>
                 /\ (Ev.what = "keep" /\ Ev.subs >= 0 =>
                        /\ (Ev.subs > 0) = wires[w].subs
                        /\ (p \in Ded => (Ev.track > 0) = wires[w].track)
-                       /\ (Ev.multi > 0) = wires[w].multi)
+                       /\ (Ev.multi > 0) = wires[w].multi
+                       \* a command the server still owes an answer to (a blocked BLPOP) on a connection that becomes idle
+                       /\ (Ev.blck >= 0 => (Ev.blck > 0) = (wires[w].infl # 0)))
                 /\ \/ p \in Ded /\ DSt4(p)
                    \/ p \in Blk /\ BStore(p)
 
@@ -96,8 +102,14 @@ TSend ==
              /\ UNCHANGED <<wires, nextW, idle, size, holder, pc, pw, mark, hasInv, ops, sctx, sn, se, stores, lateUse, shist>>
         ELSE /\ Bind(p, c)
              /\ \/ p \in Ded /\ DOpKind(p, Ev.what) /\ Sent(p, pw[p])
-                \/ p \in Blk /\ pc[p] = "held" /\ pc' = [pc EXCEPT ![p] = "store"] /\ Sent(p, pw[p])
-                   /\ UNCHANGED <<wires, nextW, idle, size, holder, pw, mark, hasInv, ops, sctx, sn, se, stores, lateUse, shist>>
+                \* a blocking caller's command: what = "abandon" marks a BLPOP on a list nobody pushes to - it can only end by
+                \* its caller's context (cancel-only or deadline), i.e. it is certain to be abandoned
+                \/ p \in Blk /\ pc[p] = "held" /\ Sent(p, pw[p])
+                   /\ pc' = [pc EXCEPT ![p] = "store"]
+                   /\ wires' = (IF Ev.what = "abandon"
+                                THEN [wires EXCEPT ![pw[p]] = [@ EXCEPT !.blck = TRUE, !.bg = TRUE, !.infl = p, !.open = @ /\ BugKeepAbandoned]]
+                                ELSE wires)
+                   /\ UNCHANGED <<nextW, idle, size, holder, pw, mark, hasInv, ops, sctx, sn, se, stores, lateUse, shist>>
 
 \* MULTI / EXEC / CLIENT TRACKING ON: no tag, attributed to the dedicated session holding the connection
 TUntagged ==
@@ -126,10 +138,12 @@ TLate == Is("Late") /\ Adv /\ Keep /\ UNCHANGED <<warm, crashed>> /\ Ev.res = "r
 
 \* ---- silent steps: what mux.Store does without sending anything
 Silent == /\ UNCHANGED <<l, cmap, warm, crashed>>
-          /\ \E d \in Ded :
-               \/ DSt1(d)
-               \/ DSt2(d) /\ ~(wires[pw[d]].bg /\ wires[pw[d]].open /\ ~wires[pw[d]].blck)
-               \/ DSt3(d) /\ ~(hasInv[d] /\ wires[pw[d]].open)
+          /\ \/ \E d \in Ded :
+                  \/ DSt1(d)
+                  \/ DSt2(d) /\ ~(wires[pw[d]].bg /\ wires[pw[d]].open /\ ~wires[pw[d]].blck)
+                  \/ DSt3(d) /\ ~(hasInv[d] /\ wires[pw[d]].open)
+             \* a blocking caller whose context ended before its command was written (nothing reaches the server)
+             \/ \E b \in Blk : BGiveUp(b)
 
 TraceNext == \/ Reset \/ TAcq \/ TStore \/ TSend \/ TUntagged \/ TClean \/ THooks \/ TBlockFail \/ TClose
              \/ TRelease \/ TRelease2 \/ TLate \/ Silent
